@@ -414,9 +414,67 @@ pub fn run(tier: &str, seed: u64, replay: Option<String>) -> i32 {
     for f in &files {
         conv_ops.push(json!({"op":"convert_text","file":f.rel}));
     }
+    // variants of the project texts: one number inside one by-name definition changed (a
+    // revised copy of the same project: same names, one property different)
+    let mut variant_ops: Vec<Value> = vec![];
+    for f in files.iter().filter(|f| f.kind == FileKind::Ctehexml || thorough) {
+        let lines = crate::diskfault::split_lines(&f.text);
+        let blocks: Vec<_> = crate::diskfault::scan_blocks(&lines)
+            .into_iter()
+            .filter(|b| matches!(b.btype.as_str(), "MATERIAL" | "GLASS-TYPE" | "NAME-FRAME" | "GAP" | "LAYERS" | "DAY-SCHEDULE-PD" | "SPACE-CONDITIONS"))
+            .collect();
+        let mut cands: Vec<(usize, usize, String)> = vec![];
+        for b in &blocks {
+            for i in b.start + 1..b.end {
+                for (t, (s0, e0)) in crate::diskfault::numeric_spans(lines[i]).iter().enumerate() {
+                    if let Ok(x) = lines[i][*s0..*e0].parse::<f64>() {
+                        if x > 0.0 {
+                            cands.push((i, t, format!("{}", ((x * 0.8) * 1000.0).round() / 1000.0)));
+                        }
+                    }
+                }
+            }
+        }
+        // prefer definitions the project itself owns and uses: MATERIAL / GAP blocks first
+        let n = if thorough { 6 } else { 2 };
+        for _ in 0..n {
+            if cands.is_empty() {
+                break;
+            }
+            let (line, tok, val) = cands[rng.below(cands.len())].clone();
+            variant_ops.push(json!({"op":"convert_text","file":f.rel,"edit":{"kind":"NumOor","line":line,"tok":tok,"val":val}}));
+        }
+        // every numeric property of the project's own MATERIAL blocks (few per project)
+        for b in blocks.iter().filter(|b| b.btype == "MATERIAL").take(if thorough { 40 } else { 6 }) {
+            for i in b.start + 1..b.end {
+                if let Some((s0, e0)) = crate::diskfault::numeric_spans(lines[i]).first() {
+                    if let Ok(x) = lines[i][*s0..*e0].parse::<f64>() {
+                        if x > 0.0 && lines[i].contains("CONDUCTIVITY") {
+                            variant_ops.push(json!({"op":"convert_text","file":f.rel,"edit":{"kind":"NumOor","line":i,"tok":0,"val":format!("{}", ((x * 0.8) * 10000.0).round() / 10000.0)}}));
+                        }
+                    }
+                }
+            }
+        }
+    }
+    // damaged side files converted end to end: the outcome must not depend on the process
+    let side = corpus::load(&[FileKind::Kyg, FileKind::Tbl]);
+    let mut damaged_ops: Vec<Value> = vec![];
+    for f in &side {
+        let mut vs: Vec<_> = crate::diskfault::enumerate_c19(f, false)
+            .into_iter()
+            .filter(|v| matches!(v.edit, crate::diskfault::Edit::DelLine { .. } | crate::diskfault::Edit::DupLine { .. }))
+            .collect();
+        rng.shuffle(&mut vs);
+        for v in vs.into_iter().take(if thorough { 200 } else { 25 }) {
+            damaged_ops.push(json!({"op":"convert_dir_damaged","file":f.rel,"edit":v.edit}));
+        }
+    }
+    conv_ops.extend(variant_ops.iter().cloned());
     let ind_ops = indicator_pool(thorough, &mut rng);
     let mut all_ops: Vec<Value> = conv_ops.clone();
     all_ops.extend(ind_ops.clone());
+    all_ops.extend(damaged_ops.iter().cloned());
 
     // ---- isolated references (fresh process, hash seed 0, one thread, nothing before)
     let refs = compute_refs(&all_ops, &scratch.dir);
@@ -444,6 +502,23 @@ pub fn run(tier: &str, seed: u64, replay: Option<String>) -> i32 {
             let hs = 1 + rng.next_u64() % 1_000_000;
             let ft = if k % 2 == 1 { Some(978_307_200 + rng.next_u64() % 1_500_000_000) } else { None };
             cases.push(Case { mode: "fresh_process", job: single_job(op), env: env_of(hs, ft) });
+        }
+    }
+    let damaged_ops: Vec<Value> = damaged_ops.into_iter().filter(|o| usable(o)).collect();
+    for op in &damaged_ops {
+        for _ in 0..(if thorough { 4 } else { 2 }) {
+            cases.push(Case { mode: "fresh_process", job: single_job(op), env: env_of(1 + rng.next_u64() % 1_000_000, None) });
+        }
+    }
+    // ordered pairs (original project, revised copy) and (revised copy, original) in one process
+    for v in variant_ops.iter().filter(|o| usable(o)) {
+        let orig = json!({"op":"convert_text","file":v["file"]});
+        for pair in [vec![orig.clone(), v.clone()], vec![v.clone(), orig.clone()]] {
+            cases.push(Case {
+                mode: "history",
+                job: json!({"t":"proc","threads":[pair],"sched":{"strategy":"rr","q":1000000},"sched_seed":0}),
+                env: env_of(0, None),
+            });
         }
     }
     // the same project copied elsewhere under another directory name is the same project
